@@ -195,12 +195,26 @@ static long g_once_runs, g_spin_cnt, g_spin_rc_bad;
 static int g_phases, g_bn;
 static long g_serial[64], g_phase_sum[64];
 static void once_fn(void) { __sync_fetch_and_add(&g_once_runs, 1); sched_yield(); }
+/* one fresh control per phase: all threads leave the barrier of the previous phase together and call pthread_once on it;
+   the routine finishes late (yields first), every caller must find it completed when its own call returns */
+static pthread_once_t g_ponce[64];
+static volatile long g_pdone[64], g_pruns[64];
+static int g_cur_phase_for_once;
+static void phase_once_fn(void) {
+  int p = g_cur_phase_for_once;
+  __sync_fetch_and_add(&g_pruns[p], 1);
+  sched_yield(); sched_yield();
+  g_pdone[p] = 1;
+}
 static void * bar_fn(void * a_) {
   long me = (long)(intptr_t)a_;
   int p;
   for (p = 0; p < g_phases; p++) {
     pthread_once(&g_once, once_fn);
     CHECK(g_once_runs == 1, "once routine ran %ld times", g_once_runs);
+    g_cur_phase_for_once = p;       /* same value written by everybody of this phase */
+    CHECK(pthread_once(&g_ponce[p], phase_once_fn) == 0, "pthread_once failed");
+    CHECK(g_pdone[p] == 1 && g_pruns[p] == 1, "pthread_once returned in phase %d while its routine had run %ld times and completed=%ld", p, g_pruns[p], g_pdone[p]);
     if ((me + p) & 1) { int rc = pthread_spin_lock(&g_spin); if (rc != 0) __sync_fetch_and_add(&g_spin_rc_bad, 1); }
     else { int rc; while ((rc = pthread_spin_trylock(&g_spin)) != 0) { if (rc != EBUSY) __sync_fetch_and_add(&g_spin_rc_bad, 1); sched_yield(); } }
     g_spin_cnt++; g_phase_sum[p] += me + p;
@@ -219,6 +233,7 @@ static void section_barrier(uint64_t seed) {
   g_bn = 1 + (int)below(&r, 24); g_phases = 1 + (int)below(&r, 40);
   memset(g_serial, 0, sizeof(g_serial)); memset(g_phase_sum, 0, sizeof(g_phase_sum)); g_spin_cnt = 0; g_spin_rc_bad = 0; g_once_runs = 0;
   pthread_once_t fresh = PTHREAD_ONCE_INIT; g_once = fresh;
+  { int q; for (q = 0; q < 64; q++) { g_ponce[q] = fresh; g_pdone[q] = 0; g_pruns[q] = 0; } }
   pthread_barrier_init(&g_bar, 0, (unsigned)g_bn);
   pthread_spin_init(&g_spin, PTHREAD_PROCESS_PRIVATE);
   pthread_t t[32];
